@@ -1,38 +1,30 @@
--------------------------- MODULE EngineParallelMC --------------------------
-(* Model instances of EngineParallel: the free-driver script space. *)
-EXTENDS EngineParallel, Json, IOUtils
+--------------------------- MODULE EngineSerialMC ---------------------------
+EXTENDS EngineSerial, Json, IOUtils
 
 R(t, d, dl, ip) == [ttl |-> t, dest |-> d, delay |-> dl, ip |-> ip, err |-> ""]
 E(kind, dl) == [ttl |-> 0, dest |-> FALSE, delay |-> dl, ip |-> 0, err |-> kind]
-
-\* what the probe for TTL t may trigger (own-TTL replies, duplicates, destination replies, a destination reply
-\* replacing a router reply for the same TTL, late replies, replies credited to ANOTHER in-range TTL, retryable junk)
+\* includes duplicates that arrive in a LATER TTL's window (delay 9 > window) and replies later than their window
 Opts(t) == { <<>>,
              <<R(t, FALSE, 1, t)>>,
-             <<R(t, FALSE, 7, t)>>,
+             <<R(t, FALSE, 5, t)>>,
              <<R(t, TRUE, 4, 100)>>,
              <<R(t, FALSE, 1, t), R(t, TRUE, 4, 100)>>,
-             <<R(t, FALSE, 1, t), R(t, FALSE, 7, 50 + t)>>,
+             <<R(t, FALSE, 1, t), R(t, FALSE, 9, 50 + t)>>,
              <<R(t, TRUE, 2, 100), R(t, FALSE, 3, t)>>,
              <<E("bad", 1), R(t, FALSE, 2, t)>>,
-             <<R(t, FALSE, 13, t)>> }
+             <<R(t, FALSE, 11, t)>> }
 SmallScripts == {s \in [MinTTL..MaxTTL -> UNION {Opts(t) : t \in MinTTL..MaxTTL}] : \A t \in MinTTL..MaxTTL : s[t] \in Opts(t)}
-
-\* scripts with faults and foreign-TTL credit (smaller product: only on the first two TTLs)
 FaultOpts(t) == { <<E("fatal", 2)>>, <<E("nil", 2)>>, <<E("sendfail", 0)>>, <<R(0, FALSE, 1, 9)>>, <<R(MaxTTL + 1, TRUE, 1, 9)>>,
                   <<R(MaxTTL, TRUE, 1, 100)>>, <<R(MinTTL, FALSE, 3, 60)>>, <<E("nopkt", 1), E("bad", 1)>> }
 FaultScripts == {s \in [MinTTL..MaxTTL -> UNION {Opts(t) \cup FaultOpts(t) : t \in MinTTL..MaxTTL}] :
                     /\ \A t \in MinTTL..MaxTTL : s[t] \in Opts(t) \cup FaultOpts(t)
                     /\ \E t \in MinTTL..MaxTTL : s[t] \in FaultOpts(t)
                     /\ \A t \in (MinTTL + 2)..MaxTTL : s[t] \in {<<>>, <<R(t, FALSE, 1, t)>>}}
-
 \* 255-TTL range with a handful of answering TTLs (boundary arithmetic of the result table)
 SparseScripts == { [t \in MinTTL..MaxTTL |-> IF t = a THEN <<R(t, FALSE, 1, 7)>> ELSE IF t = b THEN <<R(t, d, 2, 100)>> ELSE <<>>] :
                      a \in {MinTTL, 128}, b \in {2, 200, MaxTTL}, d \in BOOLEAN }
 NoCancel == {0 - 1}
-CancelGrid == {0 - 1, 0, 1, 2, 3, 5, 8}
-
-\* print (script, cancelAt, out) at every terminal state: the set of outputs the design allows per scenario
+CancelGrid == {0 - 1, 0, 1, 2, 3, 5, 8, 13}
 EmitOut == (out.set /\ IOEnv.VT_EMIT = "1") =>
               PrintT(<<"OUT", ToJson([script |-> script, cancel |-> cancelAt, min |-> MinTTL, max |-> MaxTTL,
                                       timeout |-> Timeout, poll |-> Poll, delay |-> Delay]), ToJson(out)>>)
